@@ -316,6 +316,28 @@ impl BudgetEnforcer {
     ///
     /// Returns `Err(BudgetBreach)` as soon as a limit is exceeded.
     pub fn observe(&mut self, ev: &Event) -> Result<(), BudgetBreach> {
+        // Under per-document enforcement the markers between documents belong to no document:
+        // counting them would make a document's verdict depend on its neighbours (a document
+        // with exactly `max_events` events made the *next* `DocumentStart` trip the limit, the
+        // last document of a stream was charged for `StreamEnd`, and `DocumentEnd` was charged
+        // only after the document's value had already been handed out).
+        if self.policy == EnforcingPolicy::PerDocument
+            && matches!(
+                ev,
+                Event::StreamStart
+                    | Event::StreamEnd
+                    | Event::DocumentStart(_)
+                    | Event::DocumentEnd
+            )
+        {
+            if matches!(ev, Event::DocumentStart(_)) {
+                self.report.reset();
+                self.depth = 0;
+                self.containers.clear();
+                self.defined_anchors.clear();
+            }
+            return Ok(());
+        }
         self.report.events += 1;
         if self.report.events > self.budget.max_events {
             return Err(BudgetBreach::Events {
@@ -399,6 +421,8 @@ impl BudgetEnforcer {
             }
             Event::DocumentStart(_explicit) => {
                 if self.policy == EnforcingPolicy::PerDocument {
+                    // handled above: everything that is counted per document starts afresh,
+                    // including the open containers a failed (abandoned) document left behind
                     self.report.reset();
                 } else {
                     self.report.documents += 1;
